@@ -108,14 +108,12 @@ class RedisMessageBroker(MessageBrokerT):
             keys=["parameters", "_reject_to"],
         )
 
-        if raw_params[0] is None:
-            # the message's data is gone: it has already been acknowledged, there is nothing to give back
+        if raw_params[0] is None or raw_params[1] is None:
+            # the message's data is gone (acknowledged) or it carries no take marker (already nacked,
+            # rejected or requeued): it is not held, there is nothing to give back
             return
         params = self.PARAMETERS_CLASS.decode(raw_params[0].decode())
-
-        reject_to = "n"  # normal queue
-        if raw_params[1] is not None:
-            reject_to = raw_params[1].decode()
+        reject_to = raw_params[1].decode()  # the queue it was taken from
 
         async with self.conn.pipeline(transaction=True) as pipe:
             if reject_to == "dead":
